@@ -16,11 +16,11 @@ from ..runner import Skip
 RULE = ("cases from rng(seed, 3, 0, i): well-posed cluster graphs (1-4 clusters of r2/r3/se2/se3 poses, 2-6 (thorough: up to 12) poses each, spanning "
         "tree + loop + parallel odometry edges in either vertex order, landmarks with rotated offsets, custom unary/binary/ternary edges with "
         "numerical or AD Jacobians, dense SPD information with cross terms, shuffled vertex/edge lists, ids negative/sparse/2^62/2^64, several "
-        "fixed vertices, initial poses sharing one pose object / numpy array) x fix_first_pose in {True, False}; one real iteration vs the dense reduced Gauss-Newton step. distinct = fingerprint "
+        "fixed vertices, initial poses sharing one pose object / numpy array) x fix_first_pose in {True, False}; one real iteration vs the dense reduced Gauss-Newton step; every 4th case adds a second call on the same objects after a vertex was newly fixed / information changed, compared with a fresh graph in the same state. distinct = fingerprint "
         "of the spec; non-trivial = at least one free vertex moved by more than 1e-6 and cond(H_reduced) <= 1e10.")
 REQ = ["eval:gn-step-applied", "eval:fixed-vertex-zero-increment", "eval:solver-boundary-H", "eval:solver-boundary-rhs", "class:parallel_edges", "class:edge_high_index_first",
        "class:mixed_dimensions", "class:custom_unary", "class:custom_ternary", "class:custom_numeric_jacobian", "class:fix_first_pose=True", "class:fix_first_pose=False",
-       "class:several_fixed_per_cluster", "class:landmark_offset_rotated", "class:shared_pose_storage", "class:exact_special_values"]
+       "class:several_fixed_per_cluster", "class:landmark_offset_rotated", "class:shared_pose_storage", "class:exact_special_values", "class:second_call_after_edits", "eval:second-call-equals-fresh-graph", "class:fixed_flags_as_int", "class:landmark_offset_zero_translation_rotated"]
 PLAN = {
     "quick": {"cases": 1600, "soft_s": 70, "min_nontrivial": 400, "require": REQ},
     "thorough": {"cases": 60000, "soft_s": 1200, "min_nontrivial": 10000, "require": REQ},
@@ -121,6 +121,47 @@ def one_step_check(ctx, spec, labels, ffp, case, monitor_prefix="", cond_max=1e1
     return ok, moved, cond
 
 
+def second_call_check(ctx, spec, labels, rng, case):
+    """History: one optimize() call, then fixed flags / information changed on the same objects, then a second call: the second call must be
+    exactly the Gauss-Newton step of the *current* problem (compared with a fresh graph in the same state through one_step_check's oracle)."""
+    g = M.build(spec)
+    try:
+        M.quiet_optimize(g, max_iter=1, tol=0.0, fix_first_pose=False)
+    except Exception:
+        raise Skip("first call raised")
+    edits = []
+    free_v = [v for v in g._vertices if not v.fixed]
+    if len(free_v) > 1:
+        free_v[int(rng.integers(len(free_v)))].fixed = True
+        edits.append("vertex newly fixed")
+    for e in g._edges:
+        if rng.random() < 0.3:
+            e.information = e.information * float(10 ** rng.uniform(-1, 1))
+            edits.append("information replaced")
+    now = gen.copy_spec(spec)
+    now.pop("share", None)
+    for v, lv in zip(now["vertices"], g._vertices):
+        v["pose"] = M.fl(lv.pose)
+        v["fixed"] = bool(lv.fixed)
+    for e, le in zip(now["edges"], g._edges):
+        e["info"] = np.asarray(le.information).tolist()
+    if not all(math.isfinite(x) for v in now["vertices"] for x in v["pose"]):
+        raise Skip("non-finite state after the first call")
+    fresh = M.build(now)
+    try:
+        M.quiet_optimize(g, max_iter=1, tol=0.0, fix_first_pose=False)
+        M.quiet_optimize(fresh, max_iter=1, tol=0.0, fix_first_pose=False)
+    except Exception as ex:
+        ctx.check("second-call-equals-fresh-graph", False, {"exception": type(ex).__name__}, {"edits": edits}, case)
+        return
+    a, b = M.snapshot_poses(g), M.snapshot_poses(fresh)
+    same = all(len(p) == len(q) and all((x == y) or (x != x and y != y) or abs(x - y) <= 1e-11 * max(1.0, abs(x)) for x, y in zip(p, q)) for p, q in zip(a, b))
+    ctx.check("second-call-equals-fresh-graph", same, {"history": "second call after edits"}, {"edits": sorted(set(edits))}, dict(case, edits=edits))
+    # and the fresh graph's step is the Gauss-Newton step of the current problem (black-box oracle)
+    one_step_check(ctx, now, labels | {"second_call"}, False, dict(case, stage="second call"))
+    ctx.count("class:second_call_after_edits")
+
+
 def run_case(ctx, i, rng):
     ffp = bool(i % 2)
     big = ctx.tier == "thorough" and rng.random() < 0.3
@@ -133,6 +174,11 @@ def run_case(ctx, i, rng):
     labels.add("fix_first_pose=%s" % ffp)
     case = {"graph": {k: v for k, v in spec.items() if k != "truth_by_id"}, "fix_first_pose": ffp}
     res = one_step_check(ctx, spec, labels, ffp, case)
+    if i % 4 == 0:
+        try:
+            second_call_check(ctx, spec, labels, rng, case)
+        except Skip as sk:
+            ctx.skip(sk.reason)
     for lab in labels:
         ctx.count("class:" + lab)
     if res and res is not False:
